@@ -980,15 +980,14 @@ package connect
 //@   assigns cdone(ctx)
 //@   ensures err == nil ==> res == nil
 //@   ensures err != nil ==> res != nil
-//@   ensures coded(err) ==> res == err                                                               // label: coded-errors-pass-through
-//@   ensures err != nil && !coded(err) && Is(err, context.Canceled) ==> coded(res) && codeOf(res) == 1   // label: canceled-is-coded-canceled
-//@   ensures err != nil && !coded(err) && !Is(err, context.Canceled) && Is(err, context.DeadlineExceeded) ==> coded(res) && codeOf(res) == 4   // label: deadline-is-coded-deadline-exceeded
-//@   ensures err != nil && !coded(err) && !Is(err, context.Canceled) && !Is(err, context.DeadlineExceeded) && cdone(ctx) == context.Canceled ==> coded(res) && codeOf(res) == 1   // label: any-failure-under-a-canceled-context-is-canceled
-//@   ensures err != nil && !coded(err) && !Is(err, context.Canceled) && !Is(err, context.DeadlineExceeded) && cdone(ctx) == context.DeadlineExceeded ==> coded(res) && codeOf(res) == 4   // label: any-failure-under-an-expired-context-is-deadline-exceeded
-//@   ensures err != nil && !coded(err) && !Is(err, context.Canceled) && !Is(err, context.DeadlineExceeded) && cdone(ctx) == nil ==> res == err   // label: other-errors-unchanged-while-the-context-is-live
-//@   ensures err != nil && !coded(err) && !Is(err, context.Canceled) && !Is(err, context.DeadlineExceeded) ==> cdone(ctx) == nil || cdone(ctx) == context.Canceled || cdone(ctx) == context.DeadlineExceeded
-//@   ensures forall t ref :: {Is(res, t)} !fresh(t) && Is(err, t) ==> Is(res, t)                     // label: the-cause-stays-in-the-chain
-
+//@   ensures err != nil && cdone(ctx) == context.Canceled ==> coded(res) && codeOf(res) == 1   // label: any-failure-under-a-canceled-context-is-canceled-whatever-code-the-transport's-error-has
+//@   ensures err != nil && cdone(ctx) == context.DeadlineExceeded ==> coded(res) && codeOf(res) == 4   // label: any-failure-under-an-expired-context-is-deadline-exceeded-whatever-code-the-transport's-error-has
+//@   ensures err != nil && cdone(ctx) != nil && !(coded(err) && res == err) ==> !Is(res, io.EOF)   // label: and-does-not-read-as-the-end-of-the-body
+//@   ensures err != nil && cdone(ctx) == nil && coded(err) ==> res == err                                                               // label: coded-errors-pass-through-while-the-context-is-live
+//@   ensures err != nil && cdone(ctx) == nil && !coded(err) && Is(err, context.Canceled) ==> coded(res) && codeOf(res) == 1   // label: canceled-is-coded-canceled
+//@   ensures err != nil && cdone(ctx) == nil && !coded(err) && !Is(err, context.Canceled) && Is(err, context.DeadlineExceeded) ==> coded(res) && codeOf(res) == 4   // label: deadline-is-coded-deadline-exceeded
+//@   ensures err != nil && cdone(ctx) == nil && !coded(err) && !Is(err, context.Canceled) && !Is(err, context.DeadlineExceeded) ==> res == err   // label: other-errors-unchanged-while-the-context-is-live
+//@   ensures err != nil ==> cdone(ctx) == nil || cdone(ctx) == context.Canceled || cdone(ctx) == context.DeadlineExceeded
 //@ func wrapIfUncoded(err) res
 //@   tags C02, C15, C06
 //@   ensures err == nil ==> res == nil
@@ -1061,11 +1060,11 @@ package connect
 //@   ensures called("context.Context.Err", 1) && callres("context.Context.Err", 1) == context.DeadlineExceeded ==> n == 0 && coded(err) && codeOf(err) == 4   // label: expired-before-read
 //@   ensures old(d.err) != nil ==> n == 0 && err == old(d.err)                                      // label: error-is-sticky
 //@   ensures called("io.ReadCloser.Read", 1) ==> d.err == old(d.err)                                // label: a-body-read-records-no-error-the-protocol-layer-decides-how-the-call-ended   // tags: C03, C04
-//@   ensures called("io.ReadCloser.Read", 1) ==> n == callres("io.ReadCloser.Read", 1, 0) && (callres("io.ReadCloser.Read", 1, 1) == nil ==> err == nil) && (coded(callres("io.ReadCloser.Read", 1, 1)) ==> err == callres("io.ReadCloser.Read", 1, 1))   // label: passes-the-body's-read-through
-//@   ensures called("io.ReadCloser.Read", 1) && Is(callres("io.ReadCloser.Read", 1, 1), context.Canceled) && !coded(callres("io.ReadCloser.Read", 1, 1)) ==> coded(err) && codeOf(err) == 1   // label: cancellation-reported-by-the-body-is-canceled
-//@   ensures called("io.ReadCloser.Read", 1) && !Is(callres("io.ReadCloser.Read", 1, 1), context.Canceled) && Is(callres("io.ReadCloser.Read", 1, 1), context.DeadlineExceeded) && !coded(callres("io.ReadCloser.Read", 1, 1)) ==> coded(err) && codeOf(err) == 4   // label: expiry-reported-by-the-body-is-deadline-exceeded
+//@   ensures called("io.ReadCloser.Read", 1) ==> n == callres("io.ReadCloser.Read", 1, 0) && (callres("io.ReadCloser.Read", 1, 1) == nil ==> err == nil) && (coded(callres("io.ReadCloser.Read", 1, 1)) && cdone(d.ctx) == nil ==> err == callres("io.ReadCloser.Read", 1, 1)) && (callres("io.ReadCloser.Read", 1, 1) == io.EOF ==> err == io.EOF)   // label: passes-the-body's-read-through
+//@   ensures called("io.ReadCloser.Read", 1) && Is(callres("io.ReadCloser.Read", 1, 1), context.Canceled) && !coded(callres("io.ReadCloser.Read", 1, 1)) && cdone(d.ctx) != context.DeadlineExceeded ==> coded(err) && codeOf(err) == 1   // label: cancellation-reported-by-the-body-is-canceled
+//@   ensures called("io.ReadCloser.Read", 1) && !Is(callres("io.ReadCloser.Read", 1, 1), context.Canceled) && Is(callres("io.ReadCloser.Read", 1, 1), context.DeadlineExceeded) && !coded(callres("io.ReadCloser.Read", 1, 1)) && cdone(d.ctx) != context.Canceled ==> coded(err) && codeOf(err) == 4   // label: expiry-reported-by-the-body-is-deadline-exceeded
 //@   ensures called("io.ReadCloser.Read", 1) && callres("io.ReadCloser.Read", 1, 1) != nil && !Is(callres("io.ReadCloser.Read", 1, 1), io.EOF) ==> called("wrapIfContextDone", 1)   // label: after-a-failed-body-read-the-call's-context-is-consulted
-//@   ensures (let e := callres("io.ReadCloser.Read", 1, 1) in called("io.ReadCloser.Read", 1) && e != nil && !Is(e, io.EOF) && !coded(e) && !Is(e, context.Canceled) && !Is(e, context.DeadlineExceeded)) ==> (cdone(d.ctx) == context.Canceled ==> coded(err) && codeOf(err) == 1) && (cdone(d.ctx) == context.DeadlineExceeded ==> coded(err) && codeOf(err) == 4)   // label: a-failed-body-read-under-a-done-context-is-canceled-or-deadline-exceeded
+//@   ensures (let e := callres("io.ReadCloser.Read", 1, 1) in called("io.ReadCloser.Read", 1) && e != nil && e != io.EOF) ==> (cdone(d.ctx) == context.Canceled ==> coded(err) && codeOf(err) == 1 && !Is(err, io.EOF)) && (cdone(d.ctx) == context.DeadlineExceeded ==> coded(err) && codeOf(err) == 4 && !Is(err, io.EOF))   // label: a-failed-body-read-under-a-done-context-is-canceled-or-deadline-exceeded-whatever-code-the-transport's-error-has-or-whatever-it-wraps
 
 // ---------------------------------------------------------------------------
 // connect.go: unary responses
@@ -1113,11 +1112,11 @@ package connect
 // wrong body; C11: every other key with all its values, in order).
 //@ macro framing(k seq) bool = k == "Content-Type" || k == "Content-Length" || k == "Content-Encoding" || k == "Transfer-Encoding" || k == "Trailer" || k == "Connect-Content-Encoding" || k == "Grpc-Encoding"
 //@ func isFramingHeader(key) res
-//@   tags C05, C08, C11, C02
+//@   tags C05, C08, C11, C02, C01
 //@   assigns nothing
 //@   ensures res == framing(key)
 //@ func mergeMetadataHeaders(into, from)
-//@   tags C05, C11, C02
+//@   tags C05, C11, C02, C01
 //@   requires into != nil
 //@   assigns mapof(into), mapvals(into)
 //@   ensures into != from ==> (forall k seq :: {mapdom(into, k)} mapdom(into, k) == (old(mapdom(into, k)) || (mapdom(from, k) && !framing(k)))) // label: merged_keys
@@ -1904,14 +1903,14 @@ package connect
 //@   ensures callres("NewClient$2.unaryFunc", 1, 1) != nil ==> err == callres("NewClient$2.unaryFunc", 1, 1) && res == nil   // label: errors-pass-through-unchanged   // tags: C02
 
 //@ func (*Client).CallServerStream(c, ctx, request) (res, err)
-//@   tags C02, C04, C05, C08, C10, C11, C12
+//@   tags C02, C04, C05, C08, C10, C11, C12, C01
 //@   requires c != nil && request != nil && (c.err == nil ==> c.config != nil && c.protocolClient != nil)
 //@   assigns everything
 //@   ensures old(c.err) != nil ==> err == old(c.err) && res == nil
 //@   assert@call(mergeHeaders#1): arg0 == callres("StreamingClientConn.RequestHeader", 1) && arg1 == request.header   // label: request-headers-reach-the-connection   // tags: C11
 //@   assert@call((*Client).newConn#1): arg2 == 2   // label: server-stream-calls-are-labelled-server-stream   // tags: C12
-//@   assert@call(protocolClient.WriteRequestHeader#1): arg0 == c.protocolClient && arg1 == 2 && arg2 == callres("StreamingClientConn.RequestHeader", 2) && called("mergeHeaders", 1)   // label: the-protocol's-request-headers-are-written-over-whatever-the-Request's-map-carried   // tags: C08, C05, C10
-//@   ensures called("mergeHeaders", 1) ==> called("protocolClient.WriteRequestHeader", 1)   // label: after-the-Request's-headers-are-merged-the-protocol's-own-are-written-again   // tags: C08, C05, C10
+//@   assert@call(protocolClient.WriteRequestHeader#1): arg0 == c.protocolClient && arg1 == 2 && arg2 == callres("StreamingClientConn.RequestHeader", 2) && called("mergeHeaders", 1)   // label: the-protocol's-request-headers-are-written-over-whatever-the-Request's-map-carried   // tags: C08, C05, C10, C01
+//@   ensures called("mergeHeaders", 1) ==> called("protocolClient.WriteRequestHeader", 1)   // label: after-the-Request's-headers-are-merged-the-protocol's-own-are-written-again   // tags: C08, C05, C10, C01
 //@   ensures called("StreamingClientConn.Send", 1) && callres("StreamingClientConn.Send", 1) != nil && Is(callres("StreamingClientConn.Send", 1), io.EOF) && callres("StreamingClientConn.CloseRequest", 2) == nil ==> err == nil && res != nil && res.conn == callres("(*Client).newConn", 1)   // label: a-write-side-eof-does-not-hide-the-server's-answer   // tags: C02, C04
 //@   ensures called("StreamingClientConn.Send", 1) && callres("StreamingClientConn.Send", 1) != nil && !Is(callres("StreamingClientConn.Send", 1), io.EOF) ==> err == callres("StreamingClientConn.Send", 1) && res == nil   // label: a-client-side-send-failure-is-returned
 
@@ -2339,10 +2338,10 @@ package connect
 // ---------------------------------------------------------------------------
 
 //@ func (*connectUnaryClientConn).Send(cc, msg) err
-//@   tags C01, C02, C05, C07
+//@   tags C01, C02, C05, C07, C04
 //@   requires cc != nil && cc.duplexCall != nil && cc.duplexCall.requestBodyReader != nil && cc.marshaler.writer != nil && !pooled(cc.marshaler.writer) && cc.marshaler.codec != nil && cc.marshaler.bufferPool != nil && cc.marshaler.header != nil
 //@   assigns out(cc.marshaler.writer), mapof(cc.marshaler.header), mapvals(cc.marshaler.header), cc.duplexCall.err, pclosed(cc.duplexCall.requestBodyReader)
-//@   ensures err != nil && !Is(err, io.EOF) ==> called("(*duplexHTTPCall).SetError", 1)   // label: a-message-that-did-not-go-out-marks-the-call-failed-so-that-closing-the-request-cannot-deliver-an-empty-one   // tags: C05, C01, C07
+//@   ensures err != nil && !Is(err, io.EOF) ==> called("(*duplexHTTPCall).SetError", 1)   // label: a-message-that-did-not-go-out-marks-the-call-failed-so-that-closing-the-request-cannot-deliver-an-empty-one   // tags: C05, C01, C07, C04
 //@   assert@call((*duplexHTTPCall).SetError#1): arg0 == cc.duplexCall && arg1 == callres("(*connectUnaryMarshaler).Marshal", 1)   // label: with-the-marshaler's-error
 //@   ensures (err == nil) == (callres("(*connectUnaryMarshaler).Marshal", 1) == nil) && (err != nil ==> err == callres("(*connectUnaryMarshaler).Marshal", 1))   // label: the-marshaler's-verdict-is-returned
 //@   assert@call((*connectUnaryMarshaler).Marshal#1): arg1 == msg
